@@ -115,7 +115,7 @@ pub fn run(args: &Args) -> i32 {
         let v = check_case(&case, &all).violations;
         return finish(args, ev, v, &|c| check_case(c, &all).violations);
     }
-    let ms = crate::props::families::members(&["fixtures", "struct", "funcs", "locals", "ctrl", "reach"], args, &mut ev);
+    let ms = crate::props::families::members(&["fixtures", "struct", "funcs", "locals", "ctrl", "reach", "minimal"], args, &mut ev);
     let mut cases: Vec<Case> = ms.iter().map(Case::of).collect();
     cases.extend(crate::props::census::cases(args, &mut ev));
     cases.extend(crate::props::bodies::cases(args, &mut ev));
